@@ -286,6 +286,7 @@ def run(repo: Repo, ctx) -> None:
     _r6(repo, ctx)
     _r7(repo, ctx)
     _r9(repo, ctx)
+    dep_tables_rule(repo, ctx, 'C11.R9')
     # ---- R8 -------------------------------------------------------------------
     from . import c20
     c20.run(repo, _Sub(ctx, 'C11.R8'))
@@ -499,6 +500,64 @@ def _r9(repo, ctx):
            f'block of the same module) are dropped, depending on their '
            f'order in the document', ap.loc,
            sample='setdefault / append only')
+
+
+def _parent_of(root, node):
+    for p_ in ast.walk(root):
+        for c_ in ast.iter_child_nodes(p_):
+            if c_ is node:
+                return p_
+    return None
+
+
+def dep_tables_rule(repo, ctx, rule):
+    """Every lookup table of the SDL dependency context that is read is also
+    filled."""
+    dm = repo.module('edb.edgeql.declarative')
+    dc = repo.cls('edb.edgeql.declarative.DepTraceContext')
+    init = dc.methods.get('__init__')
+    tables = [a.targets[0].attr for a in ast.walk(init.node)
+              if isinstance(a, ast.Assign) and isinstance(
+                  a.targets[0], ast.Attribute)
+              and norm(a.targets[0].value) == 'self'
+              and isinstance(a.value, ast.Name)]
+    reads, writes = {}, {}
+    for f in repo._funcs_of(dm):
+        if f.cls is dc:
+            continue
+        for n in ast.walk(f.node):
+            if isinstance(n, ast.Attribute) and norm(n.value) == 'ctx' \
+                    and n.attr in tables:
+                par = _parent_of(f.node, n)
+                wr = False
+                if isinstance(par, ast.Subscript) and isinstance(
+                        par.ctx, ast.Store):
+                    wr = True
+                if isinstance(par, ast.Attribute) and par.attr in (
+                        'add', 'append', 'update', 'setdefault', 'extend'):
+                    wr = True
+                if isinstance(par, ast.Subscript):
+                    pp = _parent_of(f.node, par)
+                    if isinstance(pp, ast.Attribute) and pp.attr in (
+                            'add', 'append', 'update', 'extend'):
+                        wr = True
+                (writes if wr else reads).setdefault(n.attr, set()).add(
+                    f.name)
+    n_t = 0
+    for t in tables:
+        if t not in reads:
+            continue
+        n_t += 1
+        ctx.ob(rule, f'DepTraceContext.{t}:filled', t in writes,
+               f'ctx.{t} is consulted by {sorted(reads[t])[:3]} when '
+               f'dependencies are computed but nothing fills it any more: '
+               f'the dependencies it used to contribute (e.g. computed '
+               f'pointers waiting for the constraints of the types they '
+               f'read) are silently dropped, so DESCRIBE AS SDL output is '
+               f'ordered wrongly', dm.rel(),
+               sample=f'written by {sorted(writes.get(t, []))[:3]}')
+    if n_t < 4:
+        raise AnalysisError(f'{rule}: dependency tables not recognised')
 
 
 def _parent_stmt(root, node):
